@@ -612,7 +612,7 @@ impl World {
             for i in 0..4u8 {
                 ops.push(Op::n1(K::AdjustDebt, i));
             }
-            for i in 0..2u8 {
+            for i in [0u8, 1, 3] {
                 if self.pacing_idx != i {
                     ops.push(Op::n1(K::SetPacing, i));
                 }
